@@ -162,6 +162,10 @@ pub trait Prop: Sync {
     fn run(&self, case: &Self::Case, env: &CaseEnv) -> Result<CaseReport, Failure>;
     /// text of the non-trivial rule for the evidence file
     fn rule(&self) -> String;
+    /// bound on shrink iterations (expensive cases lower it)
+    fn max_shrink_iters(&self) -> u32 {
+        4096
+    }
 }
 
 #[derive(Default)]
@@ -201,7 +205,11 @@ impl PartStats {
         }
     }
     pub fn absorb(&mut self, rep: &CaseReport, case_hash: u64, sample: impl FnOnce() -> String, ctx: &Ctx) {
-        self.evaluations += 1;
+        // a case that judges several sub-evaluations (e.g. directory x faults) reports them
+        // through the counter "evaluations_judged"; otherwise one case = one evaluation
+        let sub: u64 = rep.counters.iter().filter(|(k, _)| k == "evaluations_judged").map(|(_, v)| *v).sum();
+        self.evaluations += sub.max(1);
+        *self.counters.entry("cases".to_string()).or_default() += 1;
         if rep.nontrivial {
             let fresh = self.nontrivial.insert(case_hash);
             if fresh && self.samples.len() < 2 {
@@ -440,7 +448,7 @@ pub fn run_pbt<P: Prop>(ctx: &Ctx, prop: &P, cases: u64) {
                 let cfg = Config {
                     cases: n as u32,
                     failure_persistence: None,
-                    max_shrink_iters: 4096,
+                    max_shrink_iters: prop.max_shrink_iters(),
                     max_global_rejects: 1,
                     ..Config::default()
                 };
